@@ -815,6 +815,44 @@ func EmitSMT(hyps []*Term, goal *Term, wantModel bool) string {
 			b.WriteString(") " + f.Res.Name + ")\n")
 		}
 	}
+	// string literals that end in another literal of the query are that literal appended to their prefix
+	// ("volume.meta" == "volume" + ".meta"); concatenation cancels on both sides
+	var strFacts []string
+	if _, usesCat := ss.funcs["go.str.cat"]; usesCat {
+		byName := map[string]string{}
+		for lit, t := range strLitRegistry {
+			byName[t.Name] = lit
+		}
+		var present []string
+		for n := range ss.vars {
+			if _, ok := byName[n]; ok && strings.HasPrefix(n, "str$") {
+				present = append(present, n)
+			}
+		}
+		sort.Strings(present)
+		for _, ln := range present {
+			for _, sn := range present {
+				l, sfx := byName[ln], byName[sn]
+				if sfx == "" || l == sfx || !strings.HasSuffix(l, sfx) {
+					continue
+				}
+				pre := l[:len(l)-len(sfx)]
+				pn := ""
+				if t, ok := strLitRegistry[pre]; ok {
+					pn = t.Name
+				} else {
+					pn = fmt.Sprintf("str$pre$%s$%d", smtIdent(pre), len(pre))
+				}
+				if _, ok := ss.vars[pn]; !ok {
+					ss.vars[pn] = StrSort
+				}
+				strFacts = append(strFacts, "(assert (= "+ln+" (go.str.cat "+pn+" "+sn+")))")
+			}
+		}
+		strFacts = append(strFacts,
+			"(assert (forall ((a!sc Str) (b!sc Str) (s!sc Str)) (! (=> (= (go.str.cat a!sc s!sc) (go.str.cat b!sc s!sc)) (= a!sc b!sc)) :pattern ((go.str.cat a!sc s!sc) (go.str.cat b!sc s!sc)))))",
+			"(assert (forall ((a!sc Str) (b!sc Str) (s!sc Str)) (! (=> (= (go.str.cat s!sc a!sc) (go.str.cat s!sc b!sc)) (= a!sc b!sc)) :pattern ((go.str.cat s!sc a!sc) (go.str.cat s!sc b!sc)))))")
+	}
 	var vnames []string
 	for n := range ss.vars {
 		vnames = append(vnames, n)
@@ -822,6 +860,9 @@ func EmitSMT(hyps []*Term, goal *Term, wantModel bool) string {
 	sort.Strings(vnames)
 	for _, n := range vnames {
 		b.WriteString("(declare-fun " + n + " () " + ss.vars[n].Name + ")\n")
+	}
+	for _, f := range strFacts {
+		b.WriteString(f + "\n")
 	}
 	// distinct string literals
 	var lits []string
